@@ -675,3 +675,118 @@ Proof.
   - exfalso. exact (read_no_panic _ _ E).
   - exfalso. exact (read_terminates _ E).
 Qed.
+
+(** * More fuel never changes an answer: once a reader function has answered something other than
+      [OutOfFuel], it gives the same answer with any larger fuel. *)
+
+(** goal [obind (g f') K' = obind (g f) K] with [H : obind (g f) K <> OutOfFuel] and [L] the
+    monotonicity of [g]: rewrite [g f'] into [g f], split on its value *)
+Ltac mono_bind L H :=
+  match goal with
+  | |- obind ?x' _ = obind ?x _ =>
+    let E := fresh "E" in
+    assert (E : x' = x) by (apply L; [lia|intros E0; apply H; rewrite E0; reflexivity]);
+    rewrite E; clear E; destruct x as [?a| | |] eqn:?; cbn [obind] in *; try reflexivity
+  end.
+
+Lemma strans_loop_mono : forall f f' st s, (f <= f')%nat ->
+  strans_loop true f st s <> OutOfFuel -> strans_loop true f' st s = strans_loop true f st s.
+Proof.
+  induction f as [|f IH]; intros f' st s Hle H; [cbn in H; congruence|].
+  destruct f' as [|f']; [lia|]. cbn [strans_loop] in *.
+  destruct (nxt st) as [rt pl]; destruct rt; try reflexivity;
+    destruct pl as [| | | |l|]; try reflexivity; destruct l as [|d l]; try reflexivity.
+  all: destruct (next true st) as [[r st1]| | |]; cbn [obind] in *; try reflexivity.
+  all: apply IH; [lia|exact H].
+Qed.
+
+Lemma parse_strans_mono f f' st d0 d1 : (f <= f')%nat ->
+  parse_strans true f st d0 d1 <> OutOfFuel -> parse_strans true f' st d0 d1 = parse_strans true f st d0 d1.
+Proof. apply strans_loop_mono. Qed.
+
+Lemma parse_elem_mono : forall f f' k st b props, (f <= f')%nat ->
+  parse_elem true f k st b props <> OutOfFuel -> parse_elem true f' k st b props = parse_elem true f k st b props.
+Proof.
+  induction f as [|f IH]; intros f' k st b props Hle H; [cbn in H; congruence|].
+  destruct f' as [|f']; [lia|]. cbn [parse_elem] in *. unfold parse_elem_body in *.
+  destruct (next true st) as [[[rt pl] st1]| | |]; cbn [obind] in *; try reflexivity.
+  assert (Hdef : forall r, obind (field_of k r) (fun v => parse_elem true f k st1 ((fst r, v) :: b) props) <> OutOfFuel ->
+            obind (field_of k r) (fun v => parse_elem true f' k st1 ((fst r, v) :: b) props) =
+            obind (field_of k r) (fun v => parse_elem true f k st1 ((fst r, v) :: b) props)).
+  { intros r Hr. destruct (field_of k r); cbn [obind] in *; try reflexivity. apply IH; [lia|exact Hr]. }
+  destruct rt; try reflexivity.
+  all: destruct (accepts k _); cbn [negb] in *; try reflexivity.
+  all: try (apply (Hdef (_, pl)); exact H).
+  - (* Strans *)
+    destruct pl as [|d0 d1| | | |]; try (apply (Hdef (Strans, _)); exact H).
+    mono_bind parse_strans_mono H. destruct a as [s st2]. apply IH; [lia|exact H].
+  - (* PropAttr *)
+    destruct pl as [| |l| | |]; try (apply (Hdef (PropAttr, _)); exact H).
+    destruct l as [|attr l]; try (apply (Hdef (PropAttr, _)); exact H).
+    destruct (parse_property true st1 attr) as [[p st2]| | |]; cbn [obind] in *; try reflexivity.
+    apply IH; [lia|exact H].
+Qed.
+
+Lemma struct_loop_mono : forall f f' st, (f <= f')%nat ->
+  struct_loop true f st <> OutOfFuel -> struct_loop true f' st = struct_loop true f st.
+Proof.
+  induction f as [|f IH]; intros f' st Hle H; [cbn in H; congruence|].
+  destruct f' as [|f']; [lia|]. cbn [struct_loop] in *.
+  destruct (next true st) as [[[rt pl] st1]| | |]; cbn [obind] in *; try reflexivity.
+  cbn [fst] in *. destruct rt; cbn [elkind_of] in *; try reflexivity.
+  all: mono_bind parse_elem_mono H; destruct a as [e st2].
+  all: mono_bind IH H.
+Qed.
+
+Lemma parse_struct_mono f f' st dates : (f <= f')%nat ->
+  parse_struct true f st dates <> OutOfFuel -> parse_struct true f' st dates = parse_struct true f st dates.
+Proof.
+  intros Hle H. unfold parse_struct in *.
+  destruct (dates_of dates); cbn [obind] in *; try reflexivity.
+  destruct (next true st) as [[[rt pl] st1]| | |]; cbn [obind] in *; try reflexivity.
+  destruct rt; try reflexivity. destruct pl; try reflexivity.
+  mono_bind struct_loop_mono H.
+Qed.
+
+Lemma lib_loop_mono : forall f f' st name units structs, (f <= f')%nat ->
+  lib_loop true f st name units structs <> OutOfFuel ->
+  lib_loop true f' st name units structs = lib_loop true f st name units structs.
+Proof.
+  induction f as [|f IH]; intros f' st name units structs Hle H; [cbn in H; congruence|].
+  destruct f' as [|f']; [lia|]. cbn [lib_loop] in *.
+  destruct (next true st) as [[[rt pl] st1]| | |]; cbn [obind] in *; try reflexivity.
+  destruct rt; try reflexivity.
+  - destruct pl; try reflexivity. apply IH; [lia|exact H].
+  - destruct pl as [| | | |l|]; try reflexivity. destruct l as [|d0 [|d1 l]]; try reflexivity. apply IH; [lia|exact H].
+  - destruct pl as [| |dates| | |]; try reflexivity.
+    mono_bind parse_struct_mono H. destruct a as [s st2]. apply IH; [lia|exact H].
+Qed.
+
+Lemma parse_lib_mono f f' st : (f <= f')%nat ->
+  parse_lib true f st <> OutOfFuel -> parse_lib true f' st = parse_lib true f st.
+Proof.
+  intros Hle H. unfold parse_lib in *.
+  destruct (next true st) as [[[rt pl] st1]| | |]; cbn [obind] in *; try reflexivity.
+  destruct rt; try reflexivity. destruct pl as [| |l| | |]; try reflexivity. destruct l as [|v l]; try reflexivity.
+  destruct (next true st1) as [[[rt2 pl2] st2]| | |]; cbn [obind] in *; try reflexivity.
+  destruct rt2; try reflexivity. destruct pl2 as [| |d| | |]; try reflexivity.
+  destruct (dates_of d); cbn [obind] in *; try reflexivity.
+  mono_bind lib_loop_mono H.
+Qed.
+
+Theorem read_lib_fuel_mono f f' bs : (f <= f')%nat ->
+  read_lib_fuel true f bs <> OutOfFuel -> read_lib_fuel true f' bs = read_lib_fuel true f bs.
+Proof.
+  intros Hle H. unfold read_lib_fuel in *.
+  destruct (read_record true bs) as [[r bs']| | |]; cbn [obind] in *; try reflexivity.
+  apply parse_lib_mono; assumption.
+Qed.
+
+(** any fuel above length bs / 4 gives the answer of [read_lib] *)
+Theorem read_fuel_irrelevant bs f : (length bs < 4 * f)%nat -> read_lib_fuel true f bs = read_lib bs.
+Proof.
+  intros Hf. unfold read_lib.
+  destruct (Nat.le_ge_cases f (read_fuel bs)) as [Hle|Hle].
+  - symmetry. apply read_lib_fuel_mono; [exact Hle|]. apply read_enough_fuel. exact Hf.
+  - apply read_lib_fuel_mono; [exact Hle|]. apply read_terminates.
+Qed.
